@@ -17,8 +17,10 @@ import time
 VERIF = os.path.dirname(os.path.dirname(os.path.abspath(__file__)))
 SPEC = os.path.join(VERIF, "spec")
 HARNESS = os.path.join(VERIF, "harness")
-REPO = "/repo"
-NCPU = os.cpu_count() or 4
+REPO = os.environ.get("VERIF_REPO") or "/repo"   # the registered checks always use /repo; the override is for scratch worktrees
+NCPU = int(os.environ.get("VERIF_NCPU") or 0) or os.cpu_count() or 4
+# where evidence/ and replay/ are written: /verif, except for runs against a scratch worktree
+OUT = VERIF if REPO == "/repo" else (os.environ.get("VERIF_OUT") or os.path.join(VERIF, ".work", "alt-" + hashlib.sha1(REPO.encode()).hexdigest()[:8]))
 
 
 class Broken(Exception):
@@ -63,7 +65,14 @@ class Work:
     def build(self, race=False):
         """Build the harness against /repo's current working tree (tag verif)."""
         out = self.path("rsverif-race" if race else "rsverif")
-        shutil.copyfile(os.path.join(REPO, "go.sum"), os.path.join(HARNESS, "go.sum"))
+        hdir = HARNESS
+        if REPO != "/repo":     # scratch worktree: private copy of the harness module pointing at it
+            hdir = self.path("harness")
+            if not os.path.isdir(hdir):
+                shutil.copytree(HARNESS, hdir)
+                gm = open(os.path.join(hdir, "go.mod")).read().replace("=> /repo", "=> " + REPO)
+                open(os.path.join(hdir, "go.mod"), "w").write(gm)
+        shutil.copyfile(os.path.join(REPO, "go.sum"), os.path.join(hdir, "go.sum"))
         args = ["build", "-tags", "verif"] + (["-race"] if race else []) + ["-o", out, "./cmd/rsverif"]
         attempts = [(["go"], self.goenv())]
         e2 = self.goenv()
@@ -72,7 +81,7 @@ class Work:
         attempts.append((["go1.26"], e2))
         last = ""
         for cmd, env in attempts:
-            p = subprocess.run(cmd + args, cwd=HARNESS, env=env, capture_output=True, text=True)
+            p = subprocess.run(cmd + args, cwd=hdir, env=env, capture_output=True, text=True)
             if p.returncode == 0:
                 if not race:
                     self.bin = out
@@ -307,14 +316,14 @@ class Verdict:
                 unknown.append((sig, detail))
         for kid, (k, n) in sorted(self.known_hits.items()):
             print("KNOWN-FINDING: property=%s %s (%s; %d case(s) this run)" % (w.prop, k["what"], kid, n))
-        os.makedirs(os.path.join(VERIF, "replay"), exist_ok=True)
+        os.makedirs(os.path.join(OUT, "replay"), exist_ok=True)
         shown = 0
         groups = {}
         for sig, detail in unknown:
             h = hashlib.sha1(json.dumps(sig, sort_keys=True).encode()).hexdigest()[:10]
             groups.setdefault(h, [sig, []])[1].append(detail)
         for h, (sig, details) in groups.items():
-            rp = os.path.join(VERIF, "replay", "%s-%s.json" % (w.prop, h))
+            rp = os.path.join(OUT, "replay", "%s-%s.json" % (w.prop, h))
             with open(rp, "w") as f:
                 json.dump({"property": w.prop, "signature": sig, "cases": len(details), "detail": details[:5],
                            "tier": w.tier, "seed": w.seed}, f, indent=1, default=str)
@@ -334,8 +343,8 @@ class Verdict:
             "known_findings_hit": {k: n for k, (_, n) in self.known_hits.items()},
             "notes": self.notes,
         }
-        os.makedirs(os.path.join(VERIF, "evidence"), exist_ok=True)
-        with open(os.path.join(VERIF, "evidence", w.prop + ".json"), "w") as f:
+        os.makedirs(os.path.join(OUT, "evidence"), exist_ok=True)
+        with open(os.path.join(OUT, "evidence", w.prop + ".json"), "w") as f:
             json.dump(ev, f, indent=1, default=str)
         return 1 if unknown else 0
 
